@@ -355,3 +355,27 @@ pub fn instance(unimock: &Unimock) -> InstanceSnap {
 pub fn shared_state_addr(unimock: &Unimock) -> usize {
     crate::alloc::Arc::as_ptr(&unimock.shared_state) as usize
 }
+
+/// Match counters only: (trait, method, per-pattern counts) per mocked method, and the global
+/// ordered call index. Cheap (no formatting), for checks after every step.
+pub fn counters(unimock: &Unimock) -> (Vec<(&'static str, &'static str, Vec<usize>)>, usize) {
+    let state = &unimock.shared_state;
+    (
+        state
+            .fn_mockers
+            .values()
+            .map(|fn_mocker| {
+                (
+                    fn_mocker.info.path.trait_ident(),
+                    fn_mocker.info.path.method_ident(),
+                    fn_mocker
+                        .call_patterns
+                        .iter()
+                        .map(|pattern| pattern.call_counter.verif_peek().0)
+                        .collect(),
+                )
+            })
+            .collect(),
+        state.verif_peek_ordered_call_index(),
+    )
+}
